@@ -5,6 +5,7 @@ use crate::util::*;
 pub fn run(item: &str, repo: &str, out: &str) -> Option<Result<String, String>> {
     match item {
         "rangediff-ops" => Some(rangediff_ops(repo, out)),
+        "supplier-status-map" => Some(supplier_status_map(repo, out)),
         _ => None,
     }
 }
@@ -46,4 +47,622 @@ fn rangediff_ops(repo: &str, out: &str) -> Result<String, String> {
     body += "def numConds : Nat := 3\nend Kanidm.Gen.RangeDiff\n";
     write_generated(out, "RangeDiffOps", &format!("{rel} (fn range_diff)"), &body)?;
     Ok(format!("RangeDiffOps: {} conditions", window.len()))
+}
+
+// ---------------------------------------------------------------------------------------------
+// supplier-status-map: `QueryServerReadTransaction::supplier_provide_changes` (repl/supplier.rs)
+// ---------------------------------------------------------------------------------------------
+
+use quote::ToTokens;
+use std::collections::BTreeMap;
+
+/// What a tracked local of `supplier_provide_changes` holds.
+#[derive(Clone, Debug, PartialEq, Eq)]
+enum Loc {
+    ReqDomain,   // `domain_uuid` of the request's `ReplRuvRange::V1`
+    ReqRanges,   // `ranges` of the request's `ReplRuvRange::V1` (the consumer's windows)
+    TrimCid,     // `self.trim_cid().clone()`
+    SupplierRuv, // `self.get_be_txn().get_ruv()`
+    OwnRanges,   // `<SupplierRuv>.filter_ruv_range(&<TrimCid>)` (the supplier's windows)
+    Status,      // result of `ReplicationUpdateVector::range_diff(..)`
+    Ranges,      // result of the `match` over the status: the ranges to supply
+    Anchored,    // `<SupplierRuv>.get_anchored_ranges(<Ranges>)`
+}
+
+const LOG_MACROS: &[&str] = &[
+    "error", "warn", "info", "debug", "trace", "admin_error", "admin_warn", "admin_info",
+    "admin_debug", "security_info", "security_error", "request_error",
+];
+const REPLIES: &[(&str, &str)] = &[
+    ("DomainMismatch", "domainMismatch"),
+    ("NoChangesAvailable", "noChangesAvailable"),
+    ("RefreshRequired", "refreshRequired"),
+    ("UnwillingToSupply", "unwillingToSupply"),
+];
+
+fn toks<T: ToTokens>(t: &T) -> String {
+    t.to_token_stream().to_string()
+}
+
+/// Token text without any whitespace (for comparing against fixed shapes).
+fn nsp<T: ToTokens>(t: &T) -> String {
+    toks(t).chars().filter(|c| !c.is_whitespace()).collect()
+}
+
+fn single_ident(e: &syn::Expr) -> Option<String> {
+    match e {
+        syn::Expr::Path(p) if p.qself.is_none() && p.path.segments.len() == 1 => {
+            Some(p.path.segments[0].ident.to_string())
+        }
+        syn::Expr::Paren(p) => single_ident(&p.expr),
+        _ => None,
+    }
+}
+
+/// `&x` → x
+fn ref_ident(e: &syn::Expr) -> Option<String> {
+    match e {
+        syn::Expr::Reference(r) if r.mutability.is_none() => single_ident(&r.expr),
+        _ => None,
+    }
+}
+
+fn is_log_macro(m: &syn::Macro) -> bool {
+    m.path.segments.last().map(|s| LOG_MACROS.contains(&s.ident.to_string().as_str())).unwrap_or(false)
+}
+
+fn count_returns(b: &syn::Block) -> usize {
+    struct V(usize);
+    impl<'ast> syn::visit::Visit<'ast> for V {
+        fn visit_expr_return(&mut self, r: &'ast syn::ExprReturn) {
+            self.0 += 1;
+            syn::visit::visit_expr_return(self, r);
+        }
+    }
+    let mut v = V(0);
+    syn::visit::Visit::visit_block(&mut v, b);
+    v.0
+}
+
+/// `Ok(ReplIncrementalContext::<Unit variant>)` → Lean constructor name of `Reply`.
+fn ok_reply(e: &syn::Expr) -> Result<&'static str, String> {
+    let bad = || format!("expected `Ok(ReplIncrementalContext::<unit variant>)`, found `{}`", toks(e));
+    let syn::Expr::Call(c) = e else { return Err(bad()) };
+    if path_string(&c.func).as_deref() != Some("Ok") || c.args.len() != 1 {
+        return Err(bad());
+    }
+    let p = match &c.args[0] {
+        syn::Expr::Path(_) => path_string(&c.args[0]).ok_or_else(bad)?,
+        _ => return Err(bad()),
+    };
+    let Some(v) = p.strip_prefix("ReplIncrementalContext::") else { return Err(bad()) };
+    REPLIES
+        .iter()
+        .find(|(r, _)| *r == v)
+        .map(|(_, l)| *l)
+        .ok_or_else(|| format!("unknown ReplIncrementalContext variant `{v}` returned"))
+}
+
+/// A block `{ <logging macros>* return Ok(ReplIncrementalContext::X); }` → X.
+fn returning_block(b: &syn::Block) -> Result<&'static str, String> {
+    let n = b.stmts.len();
+    if n == 0 {
+        return Err("empty block where `return Ok(ReplIncrementalContext::..)` was expected".into());
+    }
+    for s in &b.stmts[..n - 1] {
+        match s {
+            syn::Stmt::Macro(m) if is_log_macro(&m.mac) => {}
+            other => return Err(format!("unexpected statement before the return: `{}`", toks(other))),
+        }
+    }
+    match &b.stmts[n - 1] {
+        syn::Stmt::Expr(syn::Expr::Return(r), _) => match &r.expr {
+            Some(e) => ok_reply(e),
+            None => Err("bare `return`".into()),
+        },
+        other => Err(format!("block does not end in `return Ok(..)`: `{}`", toks(other))),
+    }
+}
+
+/// Strip `?` and `.map_err(..)` / `.inspect_err(..)` adaptors (error path only).
+fn peel_err(e: &syn::Expr) -> &syn::Expr {
+    match e {
+        syn::Expr::Try(t) => peel_err(&t.expr),
+        syn::Expr::MethodCall(m) if m.method == "map_err" || m.method == "inspect_err" => peel_err(&m.receiver),
+        syn::Expr::Paren(p) => peel_err(&p.expr),
+        _ => e,
+    }
+}
+
+fn pat_ident(p: &syn::Pat) -> Option<String> {
+    match p {
+        syn::Pat::Ident(i) if i.by_ref.is_none() && i.mutability.is_none() && i.subpat.is_none() => {
+            Some(i.ident.to_string())
+        }
+        _ => None,
+    }
+}
+
+/// All identifiers a pattern binds.
+fn pat_binds(p: &syn::Pat) -> Vec<String> {
+    struct V(Vec<String>);
+    impl<'ast> syn::visit::Visit<'ast> for V {
+        fn visit_pat_ident(&mut self, i: &'ast syn::PatIdent) {
+            self.0.push(i.ident.to_string());
+            syn::visit::visit_pat_ident(self, i);
+        }
+    }
+    let mut v = V(vec![]);
+    syn::visit::Visit::visit_pat(&mut v, p);
+    v.0
+}
+
+/// `Enum::Variant { a, b: c }` → (variant, {field ↦ bound ident}); `Enum::Variant(x)` → {"0" ↦ x}.
+fn variant_pat(p: &syn::Pat, en: &str) -> Result<(String, BTreeMap<String, String>), String> {
+    let var_of = |path: &syn::Path| -> Result<String, String> {
+        let segs: Vec<String> = path.segments.iter().map(|s| s.ident.to_string()).collect();
+        if segs.len() == 2 && segs[0] == en {
+            Ok(segs[1].clone())
+        } else {
+            Err(format!("pattern `{}` is not a `{en}::<Variant>`", toks(p)))
+        }
+    };
+    let mut binds = BTreeMap::new();
+    match p {
+        syn::Pat::Path(pp) => Ok((var_of(&pp.path)?, binds)),
+        syn::Pat::TupleStruct(ts) => {
+            for (i, e) in ts.elems.iter().enumerate() {
+                let id = pat_ident(e).ok_or_else(|| format!("unsupported sub-pattern `{}`", toks(e)))?;
+                binds.insert(i.to_string(), id);
+            }
+            Ok((var_of(&ts.path)?, binds))
+        }
+        syn::Pat::Struct(st) => {
+            for f in &st.fields {
+                let syn::Member::Named(name) = &f.member else {
+                    return Err(format!("unsupported field pattern `{}`", toks(f)));
+                };
+                let id = pat_ident(&f.pat).ok_or_else(|| format!("unsupported sub-pattern `{}`", toks(&f.pat)))?;
+                binds.insert(name.to_string(), id);
+            }
+            Ok((var_of(&st.path)?, binds))
+        }
+        _ => Err(format!("unsupported pattern `{}` (wildcards / or-patterns are not recognised)", toks(p))),
+    }
+}
+
+/// `{ <logging macros>* ident }` → ident
+fn block_tail_ident(e: &syn::Expr) -> Option<String> {
+    let syn::Expr::Block(b) = e else { return None };
+    if b.label.is_some() || !b.attrs.is_empty() {
+        return None;
+    }
+    let n = b.block.stmts.len();
+    if n == 0 {
+        return None;
+    }
+    for s in &b.block.stmts[..n - 1] {
+        match s {
+            syn::Stmt::Macro(m) if is_log_macro(&m.mac) => {}
+            _ => return None,
+        }
+    }
+    match &b.block.stmts[n - 1] {
+        syn::Stmt::Expr(e, None) => single_ident(e),
+        _ => None,
+    }
+}
+
+struct Arm {
+    lean: String, // `.cont .okRanges` | `.ret .refreshRequired`
+    src: String,
+    returns: bool,
+}
+
+/// The `match <status> { … }` over `RangeDiffStatus`.
+fn status_match(m: &syn::ExprMatch) -> Result<BTreeMap<&'static str, Arm>, String> {
+    // (Rust variant, Lean kind, payload fields ↦ Lean `Src`)
+    let kinds: &[(&str, &str, &[(&str, &str)])] = &[
+        ("Ok", "ok", &[("0", "okRanges")]),
+        ("Refresh", "refresh", &[("lag_range", "lagRange")]),
+        ("Unwilling", "unwilling", &[("adv_range", "advRange")]),
+        ("Critical", "critical", &[("lag_range", "lagRange"), ("adv_range", "advRange")]),
+        ("NoRUVOverlap", "noOverlap", &[]),
+    ];
+    let mut out: BTreeMap<&'static str, Arm> = BTreeMap::new();
+    for arm in &m.arms {
+        if arm.guard.is_some() {
+            return Err(format!("match arm `{}` has a guard", toks(&arm.pat)));
+        }
+        let (var, binds) = variant_pat(&arm.pat, "RangeDiffStatus")?;
+        let (_, kind, fields) = kinds
+            .iter()
+            .find(|(v, _, _)| *v == var)
+            .ok_or_else(|| format!("unknown RangeDiffStatus variant `{var}`"))?;
+        if out.contains_key(kind) {
+            return Err(format!("RangeDiffStatus::{var} matched twice"));
+        }
+        let src = format!("{} => {}", toks(&arm.pat), toks(&*arm.body));
+        let parsed = if let Some(id) = single_ident(&arm.body) {
+            // continue with one of the payloads of this very arm
+            let field = binds
+                .iter()
+                .find(|(_, b)| **b == id)
+                .map(|(f, _)| f.clone())
+                .ok_or_else(|| format!("arm `{src}` evaluates to `{id}`, which its pattern does not bind"))?;
+            let s = fields
+                .iter()
+                .find(|(f, _)| *f == field)
+                .map(|(_, s)| *s)
+                .ok_or_else(|| format!("arm `{src}`: unknown payload field `{field}`"))?;
+            Arm { lean: format!(".cont .{s}"), src, returns: false }
+        } else if let Some(id) = block_tail_ident(&arm.body) {
+            // `{ <logging>* payload }`
+            let field = binds
+                .iter()
+                .find(|(_, b)| **b == id)
+                .map(|(f, _)| f.clone())
+                .ok_or_else(|| format!("arm `{src}` evaluates to `{id}`, which its pattern does not bind"))?;
+            let s = fields
+                .iter()
+                .find(|(f, _)| *f == field)
+                .map(|(_, s)| *s)
+                .ok_or_else(|| format!("arm `{src}`: unknown payload field `{field}`"))?;
+            Arm { lean: format!(".cont .{s}"), src, returns: false }
+        } else if let syn::Expr::Block(b) = &*arm.body {
+            if b.label.is_some() || !b.attrs.is_empty() {
+                return Err(format!("unsupported arm body `{src}`"));
+            }
+            let r = returning_block(&b.block).map_err(|e| format!("arm RangeDiffStatus::{var}: {e}"))?;
+            Arm { lean: format!(".ret .{r}"), src, returns: true }
+        } else if let syn::Expr::Return(r) = &*arm.body {
+            let e = r.expr.as_ref().ok_or("bare return")?;
+            Arm { lean: format!(".ret .{}", ok_reply(e)?), src, returns: true }
+        } else {
+            return Err(format!("unrecognised arm body `{src}`"));
+        };
+        out.insert(kind, parsed);
+    }
+    for (v, k, _) in kinds {
+        if !out.contains_key(k) {
+            return Err(format!("no arm for RangeDiffStatus::{v}"));
+        }
+    }
+    Ok(out)
+}
+
+/// C10: argument order and provenance of the `range_diff` call in `supplier_provide_changes`,
+/// the `RangeDiffStatus` → `ReplIncrementalContext` mapping, the empty-ranges test and the
+/// domain test, as a Lean table.
+fn supplier_status_map(repo: &str, out: &str) -> Result<String, String> {
+    let rel = "server/lib/src/repl/supplier.rs";
+    let ast = parse_file(repo, rel)?;
+    let f = find_fn(&ast, "QueryServerReadTransaction::supplier_provide_changes")?;
+
+    // -- signature: (&mut self, <req>: ReplRuvRange)
+    let mut params = vec![];
+    for a in &f.sig.inputs {
+        if let syn::FnArg::Typed(t) = a {
+            let id = pat_ident(&t.pat).ok_or_else(|| format!("unsupported parameter `{}`", toks(a)))?;
+            params.push((id, toks(&*t.ty)));
+        }
+    }
+    if params.len() != 1 || params[0].1 != "ReplRuvRange" {
+        return Err(format!("expected exactly one parameter of type ReplRuvRange, found {params:?}"));
+    }
+    let req = params[0].0.clone();
+
+    let mut env: BTreeMap<String, Loc> = BTreeMap::new();
+    let mut accounted_returns = 0usize;
+    let mut domain_reply: Option<&'static str> = None;
+    let mut empty_reply: Option<&'static str> = None;
+    let mut call_src = String::new();
+    let mut consumer_first: Option<bool> = None;
+    let mut arms: Option<BTreeMap<&'static str, Arm>> = None;
+    let mut seen_match = false;
+    let mut after_match_nonlog = 0usize; // non-logging statements seen after the match
+    let mut retrieve_ok = false;
+    let mut final_ok = false;
+
+    let get = |env: &BTreeMap<String, Loc>, id: &str| env.get(id).cloned();
+    let n_stmts = f.block.stmts.len();
+
+    for (si, stmt) in f.block.stmts.iter().enumerate() {
+        match stmt {
+            syn::Stmt::Macro(m) if is_log_macro(&m.mac) => continue,
+            syn::Stmt::Local(l) => {
+                let binds = pat_binds(&l.pat);
+                let init = l.init.as_ref().ok_or_else(|| format!("`{}` has no initialiser", toks(stmt)))?;
+                if init.diverge.is_some() {
+                    return Err(format!("let-else is not recognised: `{}`", toks(stmt)));
+                }
+                let e = peel_err(&init.expr);
+                for b in &binds {
+                    // a tracked local may only be re-bound to the same thing (second RUV snapshot)
+                    // or, for the chosen ranges, to their anchored form
+                    let ok = match get(&env, b) {
+                        None => true,
+                        Some(Loc::SupplierRuv) => nsp(e) == "self.get_be_txn().get_ruv()",
+                        Some(Loc::Ranges) => matches!(e, syn::Expr::MethodCall(mc) if mc.method == "get_anchored_ranges"),
+                        Some(_) => false,
+                    };
+                    if !ok {
+                        return Err(format!("tracked local `{b}` is re-bound by `{}`", toks(stmt)));
+                    }
+                }
+                if seen_match {
+                    after_match_nonlog += 1;
+                }
+                // (a) destructuring of the request
+                if let syn::Expr::Match(m) = e {
+                    let scrut = single_ident(&m.expr);
+                    if scrut.as_deref() == Some(req.as_str()) {
+                        if m.arms.len() != 1 || m.arms[0].guard.is_some() {
+                            return Err("request `match` must have the single arm ReplRuvRange::V1 { .. }".into());
+                        }
+                        let (var, fb) = variant_pat(&m.arms[0].pat, "ReplRuvRange")?;
+                        if var != "V1" {
+                            return Err(format!("unexpected request variant {var}"));
+                        }
+                        let syn::Expr::Tuple(t) = &*m.arms[0].body else {
+                            return Err(format!("request arm body `{}` is not a tuple", toks(&*m.arms[0].body)));
+                        };
+                        let syn::Pat::Tuple(pt) = &l.pat else {
+                            return Err(format!("request is not destructured into a tuple: `{}`", toks(&l.pat)));
+                        };
+                        if pt.elems.len() != t.elems.len() {
+                            return Err("tuple arity mismatch in request destructuring".into());
+                        }
+                        for (pe, te) in pt.elems.iter().zip(t.elems.iter()) {
+                            let local = pat_ident(pe).ok_or_else(|| format!("unsupported pattern `{}`", toks(pe)))?;
+                            let inner = single_ident(te).ok_or_else(|| format!("unsupported tuple element `{}`", toks(te)))?;
+                            let field = fb.iter().find(|(_, b)| **b == inner).map(|(f, _)| f.as_str());
+                            match field {
+                                Some("domain_uuid") => env.insert(local, Loc::ReqDomain),
+                                Some("ranges") => env.insert(local, Loc::ReqRanges),
+                                _ => return Err(format!("tuple element `{inner}` is not a field of the request")),
+                            };
+                        }
+                        continue;
+                    }
+                    if scrut.as_ref().and_then(|s| get(&env, s)) == Some(Loc::Status) {
+                        if seen_match {
+                            return Err("the range_diff status is matched twice".into());
+                        }
+                        let a = status_match(m)?;
+                        accounted_returns += a.values().filter(|x| x.returns).count();
+                        arms = Some(a);
+                        let id = pat_ident(&l.pat).ok_or_else(|| format!("unsupported pattern `{}`", toks(&l.pat)))?;
+                        env.insert(id, Loc::Ranges);
+                        seen_match = true;
+                        continue;
+                    }
+                }
+                let one = if binds.len() == 1 { pat_ident(&l.pat) } else { None };
+                // (b) self.trim_cid().clone()
+                let t = toks(e);
+                if nsp(e) == "self.trim_cid().clone()" {
+                    env.insert(one.ok_or("unsupported pattern for trim_cid")?, Loc::TrimCid);
+                    continue;
+                }
+                // (c) self.get_be_txn().get_ruv()
+                if nsp(e) == "self.get_be_txn().get_ruv()" {
+                    let id = one.ok_or("unsupported pattern for get_ruv")?;
+                    // the same snapshot may be taken a second time after the match (anchoring)
+                    env.insert(id, Loc::SupplierRuv);
+                    continue;
+                }
+                if let syn::Expr::MethodCall(mc) = e {
+                    let recv = single_ident(&mc.receiver).and_then(|r| get(&env, &r));
+                    // (d) <ruv>.filter_ruv_range(&<trim_cid>)
+                    if mc.method == "filter_ruv_range" {
+                        let arg = mc.args.first().and_then(ref_ident).and_then(|a| get(&env, &a));
+                        if recv != Some(Loc::SupplierRuv) || arg != Some(Loc::TrimCid) || mc.args.len() != 1 {
+                            return Err(format!(
+                                "`{t}`: expected <self.get_be_txn().get_ruv()>.filter_ruv_range(&<self.trim_cid().clone()>)"
+                            ));
+                        }
+                        env.insert(one.ok_or("unsupported pattern for filter_ruv_range")?, Loc::OwnRanges);
+                        continue;
+                    }
+                    // (g) <ruv>.get_anchored_ranges(<ranges>)
+                    if mc.method == "get_anchored_ranges" {
+                        let arg = mc.args.first().and_then(single_ident).and_then(|a| get(&env, &a));
+                        if recv != Some(Loc::SupplierRuv) || arg != Some(Loc::Ranges) || mc.args.len() != 1 {
+                            return Err(format!("`{t}`: expected <supplier ruv>.get_anchored_ranges(<ranges of the match>)"));
+                        }
+                        env.insert(one.ok_or("unsupported pattern for get_anchored_ranges")?, Loc::Anchored);
+                        continue;
+                    }
+                    // <be>.retrieve_range(&<ranges>)
+                    if mc.method == "retrieve_range" {
+                        let arg = mc.args.first().and_then(ref_ident).and_then(|a| get(&env, &a));
+                        if nsp(&*mc.receiver) != "self.get_be_txn()" || arg != Some(Loc::Ranges) {
+                            return Err(format!("`{t}`: expected self.get_be_txn().retrieve_range(&<ranges of the match>)"));
+                        }
+                        retrieve_ok = true;
+                        continue;
+                    }
+                }
+                // (e) ReplicationUpdateVector::range_diff(&X, &Y)
+                if let syn::Expr::Call(c) = e {
+                    if path_string(&c.func).as_deref() == Some("ReplicationUpdateVector::range_diff") {
+                        if consumer_first.is_some() {
+                            return Err("range_diff is called twice".into());
+                        }
+                        if c.args.len() != 2 {
+                            return Err(format!("`{t}`: expected two arguments"));
+                        }
+                        let a0 = ref_ident(&c.args[0]).ok_or_else(|| format!("`{t}`: 1st argument is not `&local`"))?;
+                        let a1 = ref_ident(&c.args[1]).ok_or_else(|| format!("`{t}`: 2nd argument is not `&local`"))?;
+                        consumer_first = Some(match (get(&env, &a0), get(&env, &a1)) {
+                            (Some(Loc::ReqRanges), Some(Loc::OwnRanges)) => true,
+                            (Some(Loc::OwnRanges), Some(Loc::ReqRanges)) => false,
+                            (x, y) => {
+                                return Err(format!(
+                                    "`{t}`: arguments must be the request's ranges and the supplier's filtered RUV ranges, \
+                                     found {a0}={x:?}, {a1}={y:?}"
+                                ))
+                            }
+                        });
+                        call_src = t.clone();
+                        env.insert(one.ok_or("unsupported pattern for range_diff")?, Loc::Status);
+                        continue;
+                    }
+                }
+                // any other local: must not consume the status or the request ranges in a way we do not model
+                if t.contains("range_diff") {
+                    return Err(format!("unrecognised use of range_diff: `{t}`"));
+                }
+                continue;
+            }
+            syn::Stmt::Expr(syn::Expr::If(i), _) => {
+                if seen_match {
+                    after_match_nonlog += 1;
+                }
+                let rets = {
+                    let mut n = count_returns(&i.then_branch);
+                    if let Some((_, e)) = &i.else_branch {
+                        struct V(usize);
+                        impl<'ast> syn::visit::Visit<'ast> for V {
+                            fn visit_expr_return(&mut self, _: &'ast syn::ExprReturn) {
+                                self.0 += 1;
+                            }
+                        }
+                        let mut v = V(0);
+                        syn::visit::Visit::visit_expr(&mut v, e);
+                        n += v.0;
+                    }
+                    n
+                };
+                if rets == 0 {
+                    continue;
+                }
+                if i.else_branch.is_some() {
+                    return Err(format!("unexpected `if .. else` with an early return: `{}`", toks(&*i.cond)));
+                }
+                // domain test: `<req domain> != self.d_info.d_uuid`
+                if let syn::Expr::Binary(b) = &*i.cond {
+                    if matches!(b.op, syn::BinOp::Ne(_)) && !seen_match && consumer_first.is_none() {
+                        let l = single_ident(&b.left).and_then(|x| get(&env, &x));
+                        let r = single_ident(&b.right).and_then(|x| get(&env, &x));
+                        let (lt, rt) = (nsp(&*b.left), nsp(&*b.right));
+                        let own = "self.d_info.d_uuid";
+                        if (l == Some(Loc::ReqDomain) && rt == own) || (r == Some(Loc::ReqDomain) && lt == own) {
+                            if domain_reply.is_some() {
+                                return Err("two domain tests".into());
+                            }
+                            domain_reply = Some(returning_block(&i.then_branch).map_err(|e| format!("domain test: {e}"))?);
+                            accounted_returns += 1;
+                            continue;
+                        }
+                    }
+                }
+                // empty test: `<ranges>.is_empty()`, the first non-logging statement after the match
+                if let syn::Expr::MethodCall(mc) = &*i.cond {
+                    let recv = single_ident(&mc.receiver).and_then(|x| get(&env, &x));
+                    if mc.method == "is_empty" && mc.args.is_empty() && recv == Some(Loc::Ranges) {
+                        if after_match_nonlog != 1 || empty_reply.is_some() {
+                            return Err("`ranges.is_empty()` test is not the first statement after the status match".into());
+                        }
+                        empty_reply = Some(returning_block(&i.then_branch).map_err(|e| format!("empty test: {e}"))?);
+                        accounted_returns += 1;
+                        continue;
+                    }
+                }
+                return Err(format!("unrecognised early return under `if {}`", toks(&*i.cond)));
+            }
+            syn::Stmt::Expr(e, None) if si == n_stmts - 1 => {
+                // final value: Ok(ReplIncrementalContext::V1 { .., ranges, .. })
+                let bad = || format!("final expression is not `Ok(ReplIncrementalContext::V1 {{ .. }})`: `{}`", toks(e));
+                let syn::Expr::Call(c) = e else { return Err(bad()) };
+                if path_string(&c.func).as_deref() != Some("Ok") || c.args.len() != 1 {
+                    return Err(bad());
+                }
+                let syn::Expr::Struct(st) = &c.args[0] else { return Err(bad()) };
+                if nsp(&st.path) != "ReplIncrementalContext::V1" || st.rest.is_some() {
+                    return Err(bad());
+                }
+                let fld = st
+                    .fields
+                    .iter()
+                    .find(|f| matches!(&f.member, syn::Member::Named(n) if n == "ranges"))
+                    .ok_or_else(bad)?;
+                let v = single_ident(&fld.expr).and_then(|x| get(&env, &x));
+                if v != Some(Loc::Anchored) {
+                    return Err(format!(
+                        "V1.ranges is `{}` ({v:?}); expected the anchored form of the ranges chosen by the status match",
+                        toks(&fld.expr)
+                    ));
+                }
+                final_ok = true;
+            }
+            other => {
+                if count_returns(&syn::Block { brace_token: Default::default(), stmts: vec![other.clone()] }) > 0 {
+                    return Err(format!("unrecognised statement with an early return: `{}`", toks(other)));
+                }
+                if seen_match {
+                    after_match_nonlog += 1;
+                }
+            }
+        }
+    }
+
+    let total_returns = count_returns(&f.block);
+    if total_returns != accounted_returns {
+        return Err(format!(
+            "supplier_provide_changes has {total_returns} `return`s, {accounted_returns} recognised (domain test, status arms, empty test)"
+        ));
+    }
+    let consumer_first = consumer_first.ok_or("no call ReplicationUpdateVector::range_diff(&_, &_) found")?;
+    let arms = arms.ok_or("no `match` over the range_diff status found")?;
+    if !retrieve_ok {
+        return Err("self.get_be_txn().retrieve_range(&<ranges>) not found".into());
+    }
+    if !final_ok {
+        return Err("final `Ok(ReplIncrementalContext::V1 { .. })` not found".into());
+    }
+
+    let opt = |r: Option<&str>| match r {
+        Some(x) => format!("some .{x}"),
+        None => "none".to_string(),
+    };
+    let mut body = String::from("namespace Kanidm.Gen.SupplierMap\n");
+    body += "/-- Unit variants of `ReplIncrementalContext` (repl/proto.rs) a decision can return. -/\n";
+    body += "inductive Reply where\n";
+    for (_, l) in REPLIES {
+        body += &format!("  | {l}\n");
+    }
+    body += "deriving DecidableEq, Repr\n";
+    body += "/-- Variants of `RangeDiffStatus`, the scrutinee of the `match` in `supplier_provide_changes`. -/\n";
+    body += "inductive Kind where\n  | ok\n  | refresh\n  | unwilling\n  | critical\n  | noOverlap\nderiving DecidableEq, Repr\n";
+    body += "/-- Which payload of the matched status an arm hands on as the ranges to supply. -/\n";
+    body += "inductive Src where\n  | okRanges\n  | lagRange\n  | advRange\nderiving DecidableEq, Repr\n";
+    body += "/-- An arm either continues with a payload or returns a unit reply. -/\n";
+    body += "inductive Arm where\n  | cont (s : Src)\n  | ret (r : Reply)\nderiving DecidableEq, Repr\n";
+    body += "/-- The `match` over the status, arm by arm, as it is in the source now. -/\n";
+    body += "def supplierMap : Kind → Arm\n";
+    for k in ["ok", "refresh", "unwilling", "critical", "noOverlap"] {
+        let a = &arms[k];
+        let src: String = a.src.split("=>").next().unwrap_or("").trim().chars().take(80).collect::<String>();
+        body += &format!("  | .{k} => {}  -- `{}`\n", a.lean, src.replace('`', "'"));
+    }
+    body += &format!(
+        "/-- `{}`: `true` = the request's (consumer's) ranges are the 1st argument and the supplier's own\nfiltered RUV ranges the 2nd. -/\ndef consumerArgFirst : Bool := {}\n",
+        call_src, consumer_first
+    );
+    body += &format!(
+        "/-- `if ranges.is_empty() {{ return Ok(..) }}` right after the match (`none` = no such test). -/\ndef emptyRangesReply : Option Reply := {}\n",
+        opt(empty_reply)
+    );
+    body += &format!(
+        "/-- `if ctx_domain_uuid != self.d_info.d_uuid {{ return Ok(..) }}` before anything else (`none` = no such test). -/\ndef domainMismatchReply : Option Reply := {}\n",
+        opt(domain_reply)
+    );
+    body += "end Kanidm.Gen.SupplierMap\n";
+    write_generated(out, "SupplierMap", &format!("{rel} (fn supplier_provide_changes)"), &body)?;
+    Ok(format!(
+        "SupplierMap: 5 arms, consumerArgFirst={consumer_first}, empty={:?}, domain={:?}",
+        empty_reply, domain_reply
+    ))
 }
